@@ -26,6 +26,7 @@ def run(ctx):
                     "empty and functional-empty separators", workers=vlib.NCPU, constants={"MaxLen": 2 if quick else 3})
     scen = [wlfam.tree_scen(rng, uniform_only=False, uncap_prob=0.4, budget=2500 if quick else 12000) for _ in range(90 if quick else 900)]
     scen += shipped(rng, 40 if quick else 600) + wlfam.directed_trees(rng)
+    scen += wlfam.line_scenarios(rng, quick, None if quick else wlfam.shipped_lists(ctx))
     files, cells, leaves = wlfam.run_scenarios(ctx, scen, "c05")
     verdicts, decided = wlfam.validate(ctx, files)
     ctx.evaluations = leaves
